@@ -190,6 +190,28 @@ func genResurrection(r *Rng, g *gmsg) []*Sx {
 				}
 			}
 		}
+		if cut != nil && r.Chance(1, 2) {
+			// the write follows the failed Unpack at once, into the very subtree in which the Unpack failed: the element
+			// keeps what was decoded before the failure (by design, until the next Unpack), but the subfield in which
+			// decoding failed was discarded, so nothing of it may show below the written path
+			probe := iso8583.NewMessage(buildMessageSpec(g.term))
+			var ue *iso8583errors.UnpackError
+			if err := probe.Unpack(append([]byte(nil), cut...)); err != nil && errors.As(err, &ue) && len(ue.FieldIDs()) >= 2 && ue.FieldIDs()[0] == fmt.Sprint(id) {
+				var buildF func(n *gnode, segs []string) *Sx
+				buildF = func(n *gnode, segs []string) *Sx {
+					if len(segs) == 0 || !n.comp {
+						return genSparseValue(r, n)
+					}
+					c, ok := n.subs[segs[0]]
+					if !ok {
+						return genSparseValue(r, n)
+					}
+					return L(A("C"), L(L(X([]byte(segs[0])), buildF(c, segs[1:]))))
+				}
+				ops = append(ops, op("unpack", X(cut)), op("get"), op("setval", I(id), buildF(node, ue.FieldIDs()[1:])), op("get"), op("pack"), op("json"), op("get"))
+				return ops
+			}
+		}
 		if cut != nil {
 			ops = append(ops, op("unpack", X(cut)), op("get"), op("unpack", X(without)), op("get"))
 			var build0 func(n *gnode, segs []string) *Sx
